@@ -234,6 +234,35 @@ def render_package(spec: dict, target_dir) -> None:
             path_templates.append((bn + T + b["levels"][i]["key"], "/".join(folders + level_folders[: i + 1])))
         path_templates.append((bn, "/".join(folders)))
 
+    # "flat" basetypes: a short chain that ends in the version level, which is THEIR leaf key
+    # (leaf keys are configured per basetype; one basetype's leaf key may be an intermediate key of another)
+    for b in spec.get("flat_basetypes", []):
+        bn, code = b["name"], b["code"]
+        sel = bn + T
+        key_patterns.setdefault(sel, {})
+        key_patterns[""]["{%s:%s}" % (tk, code)] = "{%s:%s}" % (tk, _pat([code]))
+        kp_fs[""]["{%s:%s}" % (tk, b["folder"])] = "{%s:%s}" % (tk, _pat([b["folder"]]))
+        chain = ["{%s}" % pk, "{%s:%s}" % (tk, code)]
+        for lv in b["levels"]:
+            chain.append("{%s}" % lv["key"])
+            if lv["kind"] == "closed":
+                key_patterns[sel]["{%s}" % lv["key"]] = "{%s:%s}" % (lv["key"], _pat(lv["values"]))
+            elif lv["kind"] == "digits":
+                key_patterns[sel]["{%s}" % lv["key"]] = "{%s:(%s|\\*|\\>)}" % (lv["key"], lv["prefix"] + r"\d" * lv["width"])
+        chain.append("{%s}" % vk)
+        sid_templates.append((bn + T + vk, "/".join(chain)))
+        to_extrapolate.append(bn + T + vk)
+        sid_templates.append((bn, "/".join(chain[:2])))
+        key_types[bn] = [pk, tk] + [lv["key"] for lv in b["levels"]] + [vk]
+        leaf_keys[bn] = vk
+        narrowing[bn] = "%s=~%s" % (tk, code)
+        folders = ["{%s}" % pk, fixed, "{%s:%s}" % (tk, b["folder"])]
+        level_folders = ["{%s}" % lv["key"] for lv in b["levels"]]
+        path_templates.append((bn + T + vk, "/".join(folders + level_folders) + "/" + b["levels"][-1]["key"].join(["{", "}"]) + sep + "{%s}.edl" % vk))
+        for i in range(len(b["levels"]) - 1, -1, -1):
+            path_templates.append((bn + T + b["levels"][i]["key"], "/".join(folders + level_folders[: i + 1])))
+        path_templates.append((bn, "/".join(folders)))
+
     pb = spec["project_basetype"]
     sid_templates.append((pb, "{%s}" % pk))
     key_types[pb] = [pk]
@@ -270,7 +299,7 @@ def render_package(spec: dict, target_dir) -> None:
         ]
         lines += ["    %r: _root + '/' + %r," % (n, t) for n, t in path_templates] + ["}"]
         mapping = {pk: {v: k for k, v in spec["projects"].items()},
-                   tk: {b["folder"]: b["code"] for b in spec["basetypes"]},
+                   tk: {b["folder"]: b["code"] for b in spec["basetypes"] + spec.get("flat_basetypes", [])},
                    sk: {v: k for k, v in spec["states"].items()}}
         kp = {sel: dict(v) for sel, v in key_patterns.items()}
         for sel, v in kp_fs.items():
@@ -312,6 +341,8 @@ def _create_finders():
     for bn in %(bnames)r:
         table[bn] = finder_types
         table[bn + %(T)r + %(sk)r] = finder_states
+    for bn in %(flatnames)r:
+        table[bn] = finder_types
     for tname, key, values in %(consts)r:
         table[tname] = FindInConstants(key, values, parent_source=finder_types)
     return table
@@ -330,7 +361,7 @@ def get_getter_for(sid, attribute=None, config=None):
     table = _getters_by_config.get(config)
     if table is None:
         table = {'default': GetFromPaths()}
-        for bn in %(bnames)r:
+        for bn in %(bnames)r + %(flatnames)r:
             table[bn] = None
         table[%(pb)r] = None
         _getters_by_config[config] = table
@@ -355,7 +386,8 @@ def get_data_json_path(sid_path: Path) -> Path:
         "default": spec["path_configs"][0],
         "pk": pk, "tk": tk, "sk": sk, "pb": pb, "T": T,
         "projects": list(spec["projects"]),
-        "codes": [b["code"] for b in spec["basetypes"]],
+        "codes": [b["code"] for b in spec["basetypes"] + spec.get("flat_basetypes", [])],
+        "flatnames": [b["name"] for b in spec.get("flat_basetypes", [])],
         "states": list(spec["states"]),
         "bnames": [b["name"] for b in spec["basetypes"]],
         "consts": consts,
@@ -503,6 +535,17 @@ def specs(draw):
             if lv["key"] in reserved:
                 lv["key"] += "x"
         dims.append("third-basetype")
+    if chance(20):
+        used_names = {b["name"] for b in spec["basetypes"]} | {spec["project_basetype"]}
+        used_codes = {b["code"] for b in spec["basetypes"]}
+        n = draw(st.sampled_from([x for x in ["edit", "cutlist", "flat_b"] if x not in used_names]))
+        c = draw(st.sampled_from([x for x in ["e", "q", "k"] if x not in used_codes]))
+        lv = [{"key": "reel", "kind": "closed", "values": ["r1", "r2"]}, {"key": "cut", "kind": "free"}]
+        for l in lv:
+            if l["key"] in reserved:
+                l["key"] += "_f"
+        spec["flat_basetypes"] = [{"name": n, "code": c, "folder": n.upper(), "levels": lv if chance(60) else lv[:1]}]
+        dims.append("leaf-key-per-basetype")
     # 8. third path configuration
     if chance(20):
         spec["path_configs"] = ["local", "server", "cloud"]
@@ -581,4 +624,9 @@ def canonical_specs():
     def side(s):
         s["basetypes"][1]["side_branch"] = False
     variant("side-branch-toggled", side)
+
+    def flat(s):
+        s["flat_basetypes"] = [{"name": "edit", "code": "e", "folder": "EDITS",
+                                "levels": [{"key": "reel", "kind": "closed", "values": ["r1", "r2"]}, {"key": "cut", "kind": "free"}]}]
+    variant("leaf-key-per-basetype", flat)
     return out
